@@ -26,7 +26,10 @@ BAD = [mk_game([PR, PR, PR], [[(1, 1)], [(1, 2)], [(1, 2)]], [0, -1, 0], [2]),  
 # no final state at all / no state at all: refused through the ValueError that max()/min() of an empty sequence raise inside the
 # validation (not one of the explicitly raised ones)
 BAD += [mk_game([PR, PR], [[(1, 1)], [(1, 1)]], [0, 0], []),
-        mk_game([], [], [], [])]
+        mk_game([], [], [], []),
+        # a state whose transitions are a TRUTHY non-list (a number, a string): counted as nothing, refused by the validation
+        dict(rewards=[0, 0, 0], players=[PR, PR, PR], transition_list=[5, [(1, 2)], [(1, 2)]], final_states=[2]),
+        dict(rewards=[0, 0, 0], players=[PR, PR, PR], transition_list=[[(1, 1)], "ab", [(1, 2)]], final_states=[2])]
 # regrouped twins: the same (label, successor) pairs in the same order, the same size, rewards, owners and finals -- only the state a
 # pair belongs to differs, and with it the set of states that can reach the goal (anything keyed on a flattened description confuses them)
 TWINS = [mk_game([P1, P1, P1, PR, PR], [[("a", 1), ("b", 2)], [("c", 3)], [("d", 4)], [(1, 3)], [(1, 4)]], [1, 1, 1, 0, 0], [4]),
@@ -40,6 +43,7 @@ def gen_batches(rng, tier):
     yield dict(names=['t1', 't0'], games=[TWINS[1], TWINS[0]])
     yield dict(names=['t2', 't1', 't0'], games=[TWINS[2], TWINS[1], TWINS[0]])
     yield dict(names=['nofinal', 'good1'], games=[BAD[4], GOOD[1]])
+    yield dict(names=['good1', 'number', 'text', 'good2'], games=[GOOD[1], BAD[6], BAD[7], GOOD[2]])
     yield dict(names=['good2', 'empty', 'good1', 'nofinal'], games=[GOOD[2], BAD[5], GOOD[1], BAD[4]])
     yield dict(names=['g0'], games=[GOOD[0]])
     yield dict(names=['a', 'b'], games=[GOOD[3], GOOD[4]])              # same board, different goals
